@@ -44,6 +44,24 @@ FNAME = {"argparse_function": "argp.py", "class": "cls.py", "function": "meth.py
 # ======================================================================================================
 # in-process ties: find_in_ast / RewriteAtQuery
 # ======================================================================================================
+def fname(case, kind):
+    """the file a kind's target lives in; several kinds may share one file (`layout`)"""
+    return (case.get("layout") or FNAME)[kind]
+
+
+def sharing(case, kind):
+    return [k for k in KINDS if fname(case, k) == fname(case, kind)]
+
+
+def slots(case):
+    """kind -> the first kind (processing order) that names the same file: where the model keeps that file"""
+    return {k: sharing(case, k)[0] for k in KINDS}
+
+
+def is_shared(case):
+    return len({fname(case, k) for k in KINDS}) < 3
+
+
 def quiet():
     """the docstring parser prints failed type probes to stderr; keep the check's output clean"""
     return contextlib.redirect_stderr(io.StringIO())
@@ -302,13 +320,19 @@ SAME_NAMED_AFTER = [
 ]
 
 
-def gen_iface(rng, exclude=()):
+def gen_iface(rng, exclude=(), falsy=False):
     n = rng.randint(1, 4)
     names = rng.sample([p for p in PARAMS if p not in exclude], n)
     params = OrderedDict()
     for nm in names:
-        typ = rng.choice(["int", "float", "str", "int", "str"])
-        default = {"int": rng.choice([0, 1, 5, 42, 100]), "float": rng.choice([0.5, 1.0, 2.5, 0.001]), "str": rng.choice(["mnist", "foo", "a_b", "data"])}[typ]
+        typ = rng.choice(["int", "float", "str", "int", "str"] + (["bool"] if falsy else []))
+        default = {"int": rng.choice([0, 1, 5, 42, 100]), "float": rng.choice([0.5, 1.0, 2.5, 0.001]), "str": rng.choice(["mnist", "foo", "a_b", "data"]),
+                   "bool": rng.choice([True, False])}[typ]
+        if falsy and rng.random() < 0.5:
+            # falsy defaults of every scalar type (an emitter testing `not default` loses them)
+            default = {"int": 0, "float": 0.0, "str": "", "bool": False}[typ]
+            if rng.random() < 0.25:
+                typ = "Optional[%s]" % typ
         params[nm] = {"typ": typ, "doc": rng.choice(DOCS), "default": default}
     return {"doc": rng.choice(HEAD_DOCS), "params": params}
 
@@ -344,7 +368,8 @@ def render_argparse(name, iface, rng):
              "    :type argument_parser: ```ArgumentParser```", "", "    :return: argument_parser", "    :rtype: ```ArgumentParser```", '    """',
              "    argument_parser.description = %r" % iface["doc"]]
     for n, p in iface["params"].items():
-        t = "" if p["typ"] == "str" else "type=%s, " % p["typ"]
+        base = p["typ"][9:-1] if p["typ"].startswith("Optional[") else p["typ"]
+        t = "" if base == "str" else "type=%s, " % base
         lines.append("    argument_parser.add_argument('--%s', %shelp=%r, required=True, default=%r)" % (n, t, p["doc"], p["default"]))
     lines.append("    return argument_parser")
     return "\n".join(lines) + "\n"
@@ -499,7 +524,7 @@ def build_history_case(rng, k):
 def cli_args(case, d):
     args = ["sync", "--truth", case["truth"]]
     for kind in KINDS:
-        args += [FLAG[kind], os.path.join(d, FNAME[kind]), FLAG[kind] + "-name", case["names"][kind]]
+        args += [FLAG[kind], os.path.join(d, fname(case, kind)), FLAG[kind] + "-name", case["names"][kind]]
     return args
 
 
@@ -509,17 +534,17 @@ def run_real(case):
     try:
         for kind in KINDS:
             if case["files"][kind] is not None:
-                Path(d, FNAME[kind]).write_text(case["files"][kind])
+                Path(d, fname(case, kind)).write_text(case["files"][kind])
         env = dict(os.environ, PYTHONPATH=str(core.REPO), PYTHONHASHSEED="0")
         snaps = []
         edits = case.get("edits") or {}
         for ri in range(case["runs"]):
             if str(ri) in edits:
                 # the user edits the truth between two runs
-                Path(d, FNAME[case["truth"]]).write_text(edits[str(ri)])
+                Path(d, fname(case, case["truth"])).write_text(edits[str(ri)])
             before = {}
             for kind in KINDS:
-                f = Path(d, FNAME[kind])
+                f = Path(d, fname(case, kind))
                 before[kind] = f.read_text() if f.exists() else None
             try:
                 p = subprocess.run([core.PY, "-m", "cdd"] + cli_args(case, d), stdout=subprocess.PIPE, stderr=subprocess.PIPE, text=True,
@@ -529,14 +554,15 @@ def run_real(case):
                 rc, out, err = -9, "", "TIMEOUT"
             files = {}
             for kind in KINDS:
-                f = Path(d, FNAME[kind])
+                f = Path(d, fname(case, kind))
                 files[kind] = f.read_text() if f.exists() else None
             flags = {}
             for line in out.splitlines():
                 if "\t" in line:
                     w, fn = line.split("\t", 1)
                     for kind in KINDS:
-                        if os.path.basename(fn) == FNAME[kind]:
+                        # (a report about a shared file cannot be attributed to one kind)
+                        if os.path.basename(fn) == fname(case, kind) and len(sharing(case, kind)) == 1:
                             flags[kind] = w
             exc = None
             if rc != 0:
@@ -581,55 +607,70 @@ def file_json(text):
 # ------------------------------------------------------------------------------------------------------
 # instantiating the abstract emitters with the real ones
 # ------------------------------------------------------------------------------------------------------
-def real_emissions(case, texts, plan):
+class RealEmitter:
     """What the REAL parser/emitters produce for the model's requests, in the order `ground_truth` calls them and on the
     same (mutable, shared) IR object.  `texts`: the real file contents before this run."""
-    cdd = _cdd()
-    from cdd.shared.ast_utils import find_in_ast
-    from cdd.shared.source_transformer import ast_parse, to_code
 
-    t = case["truth"]
-    tab = {
-        "argparse_function": (cdd.argparse_function.parse.argparse_ast, cdd.argparse_function.emit.argparse_function),
-        "class": (cdd.class_.parse.class_, cdd.class_.emit.class_),
-        "function": (cdd.function.parse.function, cdd.function.emit.function),
-    }
-    tr = plan["truth"]
-    if "error" in tr or tr.get("found") is None or texts[t] is None:
-        return [], None
-    tree = ast_parse(texts[t], filename="truth.py")
-    node = find_in_ast(case["names"][t].split("."), tree)
-    if node is None:
-        return [], None
-    # the model's idea of the truth node must be the real one
-    tie = found_json(node)
-    if tie and tie.get("k") == "stmt":
-        tie = {"k": "stmt", "node": norm_json([tie["node"]])[0]}
-    opts = {"class_name": tr["name"]} if t == "class" else {"function_type": tr["ft"], "function_name": tr["name"]}
-    try:
-        gold = tab[t][0](node, **opts)
-    except Exception as e:  # noqa
-        return [], {"truth_parse_error": core.exc_name(e), "truth_found": tie}
-    out = []
-    for kind in KINDS:
-        rq = plan["requests"][kind]
-        if "error" in rq:
-            break  # the real run raises here, nothing is emitted afterwards
+    def __init__(self, case, texts, plan):
+        cdd = _cdd()
+        from cdd.shared.ast_utils import find_in_ast
+        from cdd.shared.source_transformer import ast_parse
+
+        self.tab = {
+            "argparse_function": (cdd.argparse_function.parse.argparse_ast, cdd.argparse_function.emit.argparse_function),
+            "class": (cdd.class_.parse.class_, cdd.class_.emit.class_),
+            "function": (cdd.function.parse.function, cdd.function.emit.function),
+        }
+        self.dead, self.tie, self.gold = True, None, None
+        t = case["truth"]
+        tr = plan["truth"]
+        if "error" in tr or tr.get("found") is None or texts[t] is None:
+            return
+        tree = ast_parse(texts[t], filename="truth.py")
+        node = find_in_ast(case["names"][t].split("."), tree)
+        if node is None:
+            return
+        # the model's idea of the truth node must be the real one
+        tie = found_json(node)
+        if tie and tie.get("k") == "stmt":
+            tie = {"k": "stmt", "node": norm_json([tie["node"]])[0]}
+        opts = {"class_name": tr["name"]} if t == "class" else {"function_type": tr["ft"], "function_name": tr["name"]}
         try:
-            if rq["new"]:
-                if kind == "function":
-                    break  # TypeError in the real call, before any emission
-                n = tab[kind][1](gold, emit_default_doc=False, word_wrap=False)
-            elif kind == "class":
-                n = tab[kind][1](gold, class_name=rq["name"], word_wrap=False)
-            else:
-                n = tab[kind][1](gold, function_type=rq["ft"], function_name=rq["name"], word_wrap=False)
-            js = norm_json(pyast.module_to_json(ast.parse(to_code(ast.Module(body=[n], type_ignores=[])))))[0]
+            self.gold = self.tab[t][0](node, **opts)
         except Exception as e:  # noqa
-            out.append({"key": rq["key"], "node": {"k": "other", "src": "<emitter raised %s>" % core.exc_name(e)}})
-            break
-        out.append({"key": rq["key"], "node": js})
-    return out, {"truth_found": tie}
+            self.tie = {"truth_parse_error": core.exc_name(e), "truth_found": tie}
+            return
+        self.tie = {"truth_found": tie}
+        self.dead = False
+
+    def emit(self, plan, kinds):
+        from cdd.shared.source_transformer import to_code
+
+        out = []
+        for kind in kinds:
+            if self.dead:
+                break
+            rq = plan["requests"][kind]
+            if "error" in rq:
+                self.dead = True  # the real run raises here, nothing is emitted afterwards
+                break
+            try:
+                if rq["new"]:
+                    if kind == "function":
+                        self.dead = True  # TypeError in the real call, before any emission
+                        break
+                    n = self.tab[kind][1](self.gold, emit_default_doc=False, word_wrap=False)
+                elif kind == "class":
+                    n = self.tab[kind][1](self.gold, class_name=rq["name"], word_wrap=False)
+                else:
+                    n = self.tab[kind][1](self.gold, function_type=rq["ft"], function_name=rq["name"], word_wrap=False)
+                js = norm_json(pyast.module_to_json(ast.parse(to_code(ast.Module(body=[n], type_ignores=[])))))[0]
+            except Exception as e:  # noqa
+                out.append({"key": rq["key"], "node": {"k": "other", "src": "<emitter raised %s>" % core.exc_name(e)}})
+                self.dead = True
+                break
+            out.append({"key": rq["key"], "node": js})
+        return out
 
 
 # ------------------------------------------------------------------------------------------------------
@@ -754,6 +795,54 @@ def control_hop(kind, truth_kind, truth_text, truth_name):
         return None
     v, why = parse_target(kind, text, "T")
     return v
+
+
+def _lit(e):
+    try:
+        v = ast.literal_eval(e)
+        return "%s:%r" % (type(v).__name__, v)
+    except Exception:  # noqa
+        return "expr:" + ast.unparse(e)
+
+
+def stdlib_defaults(kind, node):
+    """parameter -> typed default, read with the stdlib `ast` only (no cdd parser): class attributes, signature defaults,
+    `add_argument(..., default=…)` keywords"""
+    out = OrderedDict()
+    if node is None:
+        return out
+    if kind == "class":
+        for st in node.body:
+            if isinstance(st, ast.AnnAssign) and isinstance(st.target, ast.Name) and st.value is not None:
+                out[st.target.id] = _lit(st.value)
+    elif kind == "function":
+        a = node.args
+        pos = a.posonlyargs + a.args
+        for arg, d in zip(pos[len(pos) - len(a.defaults):], a.defaults):
+            out[arg.arg] = _lit(d)
+        for arg, d in zip(a.kwonlyargs, a.kw_defaults):
+            if d is not None:
+                out[arg.arg] = _lit(d)
+    else:
+        for st in ast.walk(node):
+            if isinstance(st, ast.Call) and isinstance(st.func, ast.Attribute) and st.func.attr == "add_argument" and st.args \
+                    and isinstance(st.args[0], ast.Constant) and isinstance(st.args[0].value, str):
+                for kw in st.keywords:
+                    if kw.arg == "default":
+                        out[st.args[0].value.lstrip("-")] = _lit(kw.value)
+    return out
+
+
+def written_node(text, path):
+    """the definition sync wrote for a target: the named target, or (method targets) the stray top-level `def` it appended"""
+    try:
+        mod = ast.parse(text)
+    except (SyntaxError, TypeError):
+        return None
+    node = resolve(mod, path)
+    if node is None and len(path) > 1:
+        node = next((x for x in reversed(mod.body) if isinstance(x, ast.FunctionDef) and x.name == path[-1]), None)
+    return node
 
 
 def strip_target(mod, path):
@@ -883,14 +972,14 @@ def oracle_phase(chk, case, before, states, snaps):
             sig0["const_collision"] = True
         if outcome == "glued-append":
             fail(dict(sig0, clause="valid-python" if not is_python(after) else "frame"),
-                 "%s had no trailing newline; the emission was appended onto its last line" % FNAME[kind])
+                 "%s had no trailing newline; the emission was appended onto its last line" % fname(case, kind))
             continue
         # (a) valid Python
         if after is not None:
             try:
                 ast.parse(after)
             except SyntaxError as e:
-                fail(dict(sig0, clause="valid-python"), "%s is not valid Python after sync: %s" % (FNAME[kind], e))
+                fail(dict(sig0, clause="valid-python"), "%s is not valid Python after sync: %s" % (fname(case, kind), e))
                 continue
         if first["rc"] != 0 or invalid or glued:
             continue  # the crash / the broken file is already reported; the other clauses are about completed runs on valid files
@@ -915,13 +1004,13 @@ def oracle_phase(chk, case, before, states, snaps):
             except SyntaxError:
                 a = b = None
             if a != b:
-                fail(dict(sig0, clause="frame"), "%s: code outside the target %s changed" % (FNAME[kind], name))
+                fail(dict(sig0, clause="frame"), "%s: code outside the target %s changed" % (fname(case, kind), name))
         # (d) second (and third) run byte-identical
         for i in range(1, len(snaps)):
             if snaps[i]["rc"] != 0:
                 break  # reported once per case, below
             if snaps[i]["files"][kind] != snaps[i - 1]["files"][kind]:
-                fail(dict(sig0, clause="second-run", run=i + 1), "%s differs between run %d and run %d" % (FNAME[kind], i, i + 1))
+                fail(dict(sig0, clause="second-run", run=i + 1), "%s differs between run %d and run %d" % (fname(case, kind), i, i + 1))
                 break
     if first["rc"] == 0 and not invalid and not glued:
         for i in range(1, len(snaps)):
@@ -952,17 +1041,37 @@ def check_sync_cases(chk, cases, label):
             ed = (cases[i].get("edits") or {}).get(str(run))
             if ed is not None:
                 state[i] = dict(state[i], **{cases[i]["truth"]: file_json(ed)})
-        plans = core.model_batch([{"op": "c12.plan", "files": state[i], "names": cases[i]["names"], "truth": cases[i]["truth"]} for i in idx])
-        reqs, ties = [], []
+        def plan_req(i, em):
+            return {"op": "c12.plan", "files": state[i], "names": cases[i]["names"], "truth": cases[i]["truth"], "slots": slots(cases[i]), "emissions": em}
+
+        plans = core.model_batch([plan_req(i, []) for i in idx])
+        emitters, ems, plan0 = {}, {}, {}
         for i, plan in zip(idx, plans):
-            texts = real[i][run]["before"]
+            plan0[i] = plan
             try:
                 with quiet():
-                    em, tie = real_emissions(cases[i], texts, plan)
+                    emitters[i] = RealEmitter(cases[i], real[i][run]["before"], plan)
+                    # with distinct files every request is known up front; with a shared file the request of a later kind
+                    # depends on what the earlier kind made of the file, so the plan is refined kind by kind
+                    ems[i] = emitters[i].emit(plan, KINDS[:1] if is_shared(cases[i]) else KINDS)
             except Exception as e:  # noqa
-                em, tie = [], {"harness_emission_error": core.exc_name(e)}
-            ties.append((plan, tie))
-            reqs.append({"op": "c12.sync", "files": state[i], "names": cases[i]["names"], "truth": cases[i]["truth"], "emissions": em})
+                emitters[i], ems[i] = None, []
+        sh = [i for i in idx if is_shared(cases[i]) and emitters[i] is not None]
+        for j in (1, 2):
+            if not sh:
+                break
+            for i, plan in zip(sh, core.model_batch([plan_req(i, ems[i]) for i in sh])):
+                try:
+                    with quiet():
+                        ems[i] += emitters[i].emit(plan, KINDS[j:j + 1])
+                except Exception:  # noqa
+                    emitters[i].dead = True
+        reqs, ties = [], []
+        for i in idx:
+            tie = emitters[i].tie if emitters[i] is not None else {"harness_emission_error": True}
+            ties.append((plan0[i], tie))
+            reqs.append({"op": "c12.sync", "files": state[i], "names": cases[i]["names"], "truth": cases[i]["truth"], "slots": slots(cases[i]),
+                         "emissions": ems[i]})
         outs = core.model_batch(reqs)
         for i, (plan, tie), out in zip(idx, ties, outs):
             c, snap = cases[i], real[i][run]
@@ -1003,7 +1112,7 @@ def check_sync_cases(chk, cases, label):
                         mj = out["files"][k]
                         mj = None if mj is None else norm_json(mj)
                         if mj != realj[k]:
-                            bad = "file %s differs after run %d" % (FNAME[k], run + 1)
+                            bad = "file %s differs after run %d" % (fname(c, k), run + 1)
                             break
                 if bad is None:
                     # flags: the model works modulo docstring layout / unparse text, so the real cmp_ast may see a difference the
@@ -1013,7 +1122,7 @@ def check_sync_cases(chk, cases, label):
                         key = "%s:model=%s,real=%s" % (k, mf, rf)
                         flagstats[key] = flagstats.get(key, 0) + 1
                         if mf and rf == "unchanged":
-                            bad = "model says %s modified, the real run printed unchanged" % FNAME[k]
+                            bad = "model says %s modified, the real run printed unchanged" % fname(c, k)
             if bad and "error" not in out and collide:
                 # a string constant carries the target's `_location`: RewriteAtQuery replaces an *expression*, which the
                 # statement-level model cannot represent (trusted base); the oracle reports what happens
@@ -1023,7 +1132,7 @@ def check_sync_cases(chk, cases, label):
                 n_dis += 1
                 alive[i] = False
                 chk.disagreement("C12 correspondence: Sync.sync vs `python -m cdd sync` (%s)" % label,
-                                 {"case": {k: c.get(k) for k in ("truth", "names", "states", "files", "runs", "edits")}, "run": run + 1, "why": bad},
+                                 {"case": {k: c.get(k) for k in ("truth", "names", "states", "files", "runs", "edits", "layout")}, "run": run + 1, "why": bad},
                                  {"files": snap["files"], "flags": snap["flags"], "rc": snap["rc"], "exc": snap["exc"]},
                                  {"files": out.get("files"), "flags": out.get("flags"), "err": out.get("err")})
             else:
@@ -1127,7 +1236,7 @@ def run(chk: core.Check) -> int:
         with quiet():
             fails = oracle(chk, c, snaps)
         for sig, what in fails:
-            chk.failure(sig, what, {"fn": "sync", "case": {k: c.get(k) for k in ("id", "truth", "names", "states", "files", "runs", "edits")}})
+            chk.failure(sig, what, {"fn": "sync", "case": {k: c.get(k) for k in ("id", "truth", "names", "states", "files", "runs", "edits", "layout")}})
         if str(c["id"]).startswith("witness"):
             # the witnesses of the negation theorems must (still) fail on the real code, in the recorded way
             want = WITNESS_EXPECT[c["id"]]
